@@ -271,7 +271,10 @@ def c19(ctx, finish):
                                                     red_script={"r1": {0: instances.red("D"), 1: instances.red("D", instances.eff("task"))}},
                                                     max_tasks=4, cb_reads=False)
             ia, ib = mk("twoA%d" % vi, pa, ca), mk("twoB%d" % vi, pb, cb)
-            doc = {"configs": {"A": instances.harness_config(ia), "B": instances.harness_config(ib)},
+            ca_, cb_ = instances.harness_config(ia), instances.harness_config(ib)
+            if vi % 2 == 0:       # two stores with the same, non-default name
+                ca_["name"] = cb_["name"] = "session"
+            doc = {"configs": {"A": ca_, "B": cb_},
                    "runs": [{"id": i, "prog": progs[i % len(progs)]} for i in range(reps)]}
             path = os.path.join(d, "two%d.json" % vi)
             json.dump(doc, open(path, "w"))
